@@ -98,6 +98,51 @@ def gen(tier, rng, harness=None):
     return lines
 
 
+def extra(res, findings, tier, rng, harness, driver):
+    """LLVM 14 as the reader of floating-point literals: every kind in its hexadecimal spelling(s) and decimals; llir's reading and the literal llir
+    prints must denote the bit pattern LLVM reads (NaNs with a payload are the recorded finding and are not generated here)"""
+    import struct
+    from . import refstage
+    texts = []
+    n = 150 if tier == "quick" else 4000
+    def nan(bits, ebits, mbits):
+        e = (bits >> mbits) & ((1 << ebits) - 1)
+        return e == (1 << ebits) - 1 and bits & ((1 << mbits) - 1) != 0
+    for i in range(n):
+        k = rng.choice(["half", "float", "double", "fp128", "x86_fp80", "ppc_fp128", "dec"])
+        if k == "half":
+            b = rng.getrandbits(16)
+            if nan(b, 5, 10): b = 0x7E00
+            lit = "0xH%04X" % b
+        elif k == "float":
+            b = rng.getrandbits(32)
+            if nan(b, 8, 23): b = 0x7FC00000
+            d = struct.unpack(">Q", struct.pack(">d", struct.unpack(">f", struct.pack(">I", b))[0]))[0]
+            lit = "0x%016X" % d
+        elif k == "double":
+            b = rng.getrandbits(64)
+            if nan(b, 11, 52): b = 0x7FF8000000000000
+            lit = "0x%016X" % b
+        elif k == "fp128":
+            b = rng.getrandbits(128)
+            if nan(b, 15, 112): b = 0x7FFF8 << 108
+            lit = "0xL%016X%016X" % (b & (2**64 - 1), b >> 64)
+        elif k == "x86_fp80":
+            e = rng.choice([0, 1, 0x3FFF, 0x4000, rng.getrandbits(15) % 0x7FFF])
+            m = (rng.getrandbits(63) | (1 << 63)) if e else rng.getrandbits(63)
+            b = (rng.getrandbits(1) << 79) | (e << 64) | m
+            lit = "0xK%020X" % b
+        elif k == "ppc_fp128":
+            hi = rng.getrandbits(64)
+            if nan(hi, 11, 52): hi = 0x7FF8000000000000
+            lit = "0xM%016X%016X" % (hi, 0)
+        else:
+            k = rng.choice(["double", "float", "half"])
+            lit = rng.choice(["0.0", "-0.0", "1.0", "1.5", "-2.25", "1.0e+10", "3.0e-5", "65504.0", "0.5", "1.0e+00", "123456789.0", "0.1"]) if k == "double" else rng.choice(["0.0", "1.0", "1.5", "-2.25", "0.5", "2.0e+00", "256.0"])
+        texts.append(("%s-%d" % (k, i), "@g = global %s %s\n" % (k, lit)))
+    return refstage.run(res, findings, harness, "C10", texts)
+
+
 def nontrivial(ln, model_out):
     p = ln.split()
     return len(p) >= 3 and p[2].strip("0") != ""
